@@ -284,6 +284,15 @@ ChSel(ch, capab) ==
                       THEN LET ak == MilF5(Cfg.k, OpcOf, ch.rand) IN Tup([i \in 1..6 |-> IF i <= ch.sqnZero THEN ak[i] ELSE ch.sqn[i]])
                       ELSE ch.sqn]
 
+\* an IE appended to an encoded NGAP message (first octets: PDU alternative, procedure code, criticality, length determinant, then the
+\* message SEQUENCE: extension bit octet, 16-bit IE count, the IEs)
+SpliceIe(b, ie) ==
+   LET lp == IF b[4] >= 128 THEN 2 ELSE 1
+       val == SubSeq(b, 4 + lp, Len(b))
+       cnt == val[2] * 256 + val[3] + 1
+       val2 == <<val[1], cnt \div 256, cnt % 256>> \o SubSeq(val, 4, Len(val)) \o ie
+       n == Len(val2)
+   IN SubSeq(b, 1, 3) \o (IF n < 128 THEN <<n>> ELSE <<128 + (n \div 256), n % 256>>) \o val2
 \* Registration Request in an InitialUEMessage: a new UE appears
 HandleRegistrationRequest0(amf, t, m) ==
    LET u == Len(amf.ues) + 1
@@ -389,7 +398,11 @@ HandleUeNasO(amf, i, t, ngapMsg, o) ==
                                b0 == NgapEncode(PduSetupRequest(c2, ch, psiHdr, dlt.bytes, IF withMsg THEN extra.bytes ELSE <<>>))
                                ch1 == Adj(ch, fill - Len(b0))
                                ch2 == Adj(ch1, fill - Len(FillBuild(ch1)))
-                               out == IF fill = 0 THEN b0 ELSE FillBuild(ch2) IN
+                               out0 == IF fill = 0 THEN b0 ELSE FillBuild(ch2)
+                               \* optionally (ch.setupTailIe) the UE Aggregate Maximum Bit Rate IE (id 110, ignore) follows the list, as later
+                               \* versions of TS 38.413 9.2.1.1 have it; the type dictionary taken from this library's struct tags does not know
+                               \* the IE in this message, so it is spliced into the encoding (IE count + 1, outer length recomputed)
+                               out == IF Pick(ch, "setupTailIe", FALSE) THEN SpliceIe(out0, <<0, 110, 64, 5, 0, 139, 16, 255, 255>>) ELSE out0 IN
                            Res(SetCtx(amf, i, c2), << out >>,
                                common \cup (IF fill = 0 \/ Len(out) = fill THEN {} ELSE {"HARNESS: the setup request could not be brought to " \o ToString(fill) \o " octets"})
                                       \cup (IF c.sess \in {"none", "released"} THEN {} ELSE {who \o ": PDU session establishment while a session is " \o c.sess})
